@@ -270,7 +270,7 @@ def small_scope():
 
 
 def run(ctx):
-    n = (150 if ctx.quick else 2500) * (3 if ctx.search else 1)
+    n = (400 if ctx.quick else 2500) * (3 if ctx.search else 1)
     for _ in range(n):
         a, o, t = gen_valid(ctx.rng, ctx.quick, classes=PLOG, bool_only=True)
         do_case(ctx, {"ast": a})
